@@ -142,9 +142,20 @@ def analyse_loader(repo: Repo, ci: ClassInfo):
     ps = paths_of(fl)
     inner = [x.value for x in ps[0].end[1].elts[0].elts]
     sd, prefix = positional_params(lf)[:2]
+    # the loader with its private helpers inlined: every expression of every path, plus the function's own statements
+    nodes = list(ast.walk(lf))
+    for pth in paths_of(lf):
+        for ef in pth.effects:
+            for x in ef:
+                if isinstance(x, ast.AST):
+                    nodes.extend(ast.walk(x))
+        for c, _, _ in pth.conds:
+            nodes.extend(ast.walk(c))
+        if pth.end and isinstance(pth.end[1], ast.AST):
+            nodes.extend(ast.walk(pth.end[1]))
     # iteration variables over literal lists (for loops and comprehensions)
     iter_lists = {}
-    for n in ast.walk(lf):
+    for n in nodes:
         gens = []
         if isinstance(n, ast.For):
             gens = [(n.target, n.iter)]
@@ -154,7 +165,7 @@ def analyse_loader(repo: Repo, ci: ClassInfo):
             if isinstance(tgt, ast.Name) and isinstance(it, (ast.List, ast.Tuple)) and all(isinstance(x, ast.Constant) for x in it.elts):
                 iter_lists[tgt.id] = [x.value for x in it.elts]
     popped, recursed = set(), {}
-    for n in ast.walk(lf):
+    for n in nodes:
         if isinstance(n, ast.Call) and isinstance(n.func, ast.Attribute) and n.func.attr == "pop" and U(n.func.value) == sd and n.args:
             a = n.args[0]
             if isinstance(a, ast.BinOp) and isinstance(a.op, ast.Add) and U(a.left) == prefix:
@@ -172,10 +183,10 @@ def analyse_loader(repo: Repo, ci: ClassInfo):
     for k, cls in recursed.items():
         ok = k.endswith(".")
         res.append(("R1", "ok" if ok else "bad", lf.lineno, f"{ci.name} loader prefix {k}", f"{ci.name} recurses into {cls} with prefix + {k!r} (the writer joins nested names with '.')", "every frozen low-bit state_dict (KeyError)"))
-    ok = any(isinstance(n, ast.Call) and U(n.func) == f"{ci.name}.__tensor_unflatten__" for n in ast.walk(lf))
+    ok = any(isinstance(n, ast.Call) and U(n.func) == f"{ci.name}.__tensor_unflatten__" for n in nodes)
     res.append(("R1", "ok" if ok else "bad", lf.lineno, f"{ci.name} loader unflatten", f"{ci.name}.load_from_state_dict rebuilds through {ci.name}.__tensor_unflatten__", "every frozen state_dict"))
     # meta keys: every remaining key under the prefix is popped with the prefix stripped
-    strips = any(isinstance(n, ast.Call) and isinstance(n.func, ast.Attribute) and n.func.attr in ("replace", "removeprefix") and n.args and U(n.args[0]) == prefix for n in ast.walk(lf)) or any(isinstance(n, ast.Subscript) and isinstance(n.slice, ast.Slice) and n.slice.lower is not None and U(n.slice.lower) == f"len({prefix})" for n in ast.walk(lf))
-    filters = any(isinstance(n, ast.Call) and isinstance(n.func, ast.Attribute) and n.func.attr == "startswith" and n.args and U(n.args[0]) == prefix for n in ast.walk(lf))
+    strips = any(isinstance(n, ast.Call) and isinstance(n.func, ast.Attribute) and n.func.attr in ("replace", "removeprefix") and n.args and U(n.args[0]) == prefix for n in nodes) or any(isinstance(n, ast.Subscript) and isinstance(n.slice, ast.Slice) and n.slice.lower is not None and U(n.slice.lower) == f"len({prefix})" for n in nodes)
+    filters = any(isinstance(n, ast.Call) and isinstance(n.func, ast.Attribute) and n.func.attr == "startswith" and n.args and U(n.args[0]) == prefix for n in nodes)
     res.append(("R1", "ok" if (strips and filters) else "unknown", lf.lineno, f"{ci.name} loader meta", f"{ci.name}.load_from_state_dict collects the remaining keys under the prefix as meta", ""))
     return res
